@@ -257,9 +257,9 @@ def main():
                                        'recorded executions against trace specifications that reuse the same operators'},
                     {'name': 'extended-coverage', 'path': '/verif/check',
                      'serves_properties': [],
-                     'kind_free_text': 'the same machinery applied to behaviour no listed property names (./check X01 .. X07: '
+                     'kind_free_text': 'the same machinery applied to behaviour no listed property names (./check X01 .. X08: '
                                        'periodic meshes, 1-D supermeshes, selections and trace meshes, trilinear forms, tensor '
-                                       'constructors and default tags, rcm / adaptive_theta, refinterp); see DESIGN.md section 10'}],
+                                       'constructors and default tags, rcm / adaptive_theta, refinterp, named constructors); see DESIGN.md section 10'}],
         'checks': checks,
         'not_applicable': na,
         'notes': 'Known genuine defects are listed in /verif/known_findings.jsonl (status known / fixed); see DESIGN.md section 7.',
